@@ -11,12 +11,12 @@ variable {σ : Type}
 /-- generic: what holds of every OK exit of the loop body holds of an OK result of the loop -/
 theorem runLoop_okPost (m : Machine σ) (b : Buf) (R : σ → Prop)
     (hd : ∀ i c st o e st', b[i]? = some c → m.step b i c st = .done o e st' → e = .ok →
-      i ≤ o ∧ o ≤ b.size ∧ R st')
+      i < o ∧ o ≤ b.size ∧ R st')
     (he : ∀ i st, (m.eob b i st).2.1 ≠ .ok) (i : Nat) (st : σ)
     (hok : (runLoop m b i st).2.1 = .ok) :
-    i ≤ (runLoop m b i st).1 ∧ (runLoop m b i st).1 ≤ b.size ∧ R (runLoop m b i st).2.2 := by
+    i < (runLoop m b i st).1 ∧ (runLoop m b i st).1 ≤ b.size ∧ R (runLoop m b i st).2.2 := by
   have key := runLoop_inv m b (fun j _ => i ≤ j)
-    (fun r => r.2.1 = .ok → i ≤ r.1 ∧ r.1 ≤ b.size ∧ R r.2.2)
+    (fun r => r.2.1 = .ok → i < r.1 ∧ r.1 ≤ b.size ∧ R r.2.2)
     (by
       intro j c s j' s' _ hP _
       exact ⟨fun hlt => by omega, fun _ hq => by cases hq⟩)
@@ -33,14 +33,14 @@ theorem runLoop_okPost (m : Machine σ) (b : Buf) (R : σ → Prop)
 /-- an OK exit of the standard white-space pattern is an end-of-header exit -/
 theorem lwsStd_done_ok (b : Buf) (i : Nat) (st : σ) (eoh : σ → Nat → Nat → Nat → Nat × Err × σ) (mb : σ → σ)
     {o : Nat} {st' : σ} (h : lwsStd b i st eoh mb = .done o .ok st') :
-    ∃ n crl, i ≤ n ∧ n + crl ≤ b.size ∧ eoh st i n crl = (o, .ok, st') := by
+    ∃ n crl, i ≤ n ∧ n + crl ≤ b.size ∧ eoh st i n crl = (o, .ok, st') ∧ 1 ≤ crl := by
   unfold lwsStd at h
   rcases hsk : skipLWS b i 0 with ⟨n, crl, e⟩
   rw [hsk] at h
   cases e <;> simp only at h <;> try (cases h; done)
   case eoh =>
     have hr := skipLWS_eoh_range b i 0 hsk (by decide)
-    refine ⟨n, crl, hr.1, by omega, ?_⟩
+    refine ⟨n, crl, hr.1, by omega, ?_, hr.2.2⟩
     simp only [Step.done.injEq] at h
     obtain ⟨h1, h2, h3⟩ := h
     rw [← h1, ← h2, ← h3]
@@ -80,10 +80,10 @@ theorem csEOH_ok (b : Buf) (s : PCSeqBody) (j n crl : Nat) {o : Nat} {s' : PCSeq
 /-- **ParseCallIDVal, OK**: offset in range, object final -/
 theorem parseCallIDVal_post (b : Buf) (o : Nat) (st : PCallIDBody) (ho : o ≤ b.size)
     {o' : Nat} {st' : PCallIDBody} (hr : parseCallIDVal b o st = (o', .ok, st')) :
-    o ≤ o' ∧ o' ≤ b.size ∧ st'.state = .fin := by
+    o ≤ o' ∧ o' ≤ b.size ∧ st'.state = .fin ∧ (st.state ≠ .fin → o < o') := by
   unfold parseCallIDVal at hr
   split at hr
-  · rename_i hf; cases hr; exact ⟨Nat.le_refl _, ho, hf⟩
+  · rename_i hf; cases hr; exact ⟨Nat.le_refl _, ho, hf, fun hn => absurd hf hn⟩
   · have := runLoop_okPost ciMachine b (fun s => s.state = .fin)
       (by
         intro i c s o1 e s1 hb hs he
@@ -93,21 +93,21 @@ theorem parseCallIDVal_post (b : Buf) (o : Nat) (st : PCallIDBody) (ho : o ≤ b
         split at hs
         · cases hst : s.state <;> rw [hst] at hs <;> simp only at hs
           all_goals first
-            | (obtain ⟨n, crl, h1, h2, h3⟩ := lwsStd_done_ok b i _ ciEOH id hs
+            | (obtain ⟨n, crl, h1, h2, h3, h5⟩ := lwsStd_done_ok b i _ ciEOH id hs
                obtain ⟨rfl, h4⟩ := ciEOH_ok _ _ _ _ h3
                exact ⟨by omega, h2, h4⟩)
             | cases hs
         · cases hst : s.state <;> rw [hst] at hs <;> simp only at hs <;> cases hs)
       (by intro i s; simp [ciMachine]) o st (by rw [hr])
-    rw [hr] at this; exact this
+    rw [hr] at this; exact ⟨by omega, this.2.1, this.2.2, fun _ => this.1⟩
 
 /-- **ParseUIntVal, OK** -/
 theorem parseUIntVal_post (b : Buf) (o : Nat) (st : PUIntBody) (ho : o ≤ b.size)
     {o' : Nat} {st' : PUIntBody} (hr : parseUIntVal b o st = (o', .ok, st')) :
-    o ≤ o' ∧ o' ≤ b.size ∧ st'.state = .fin := by
+    o ≤ o' ∧ o' ≤ b.size ∧ st'.state = .fin ∧ (st.state ≠ .fin → o < o') := by
   unfold parseUIntVal at hr
   split at hr
-  · rename_i hf; cases hr; exact ⟨Nat.le_refl _, ho, hf⟩
+  · rename_i hf; cases hr; exact ⟨Nat.le_refl _, ho, hf, fun hn => absurd hf hn⟩
   · have := runLoop_okPost clMachine b (fun s => s.state = .fin)
       (by
         intro i c s o1 e s1 hb hs he
@@ -117,7 +117,7 @@ theorem parseUIntVal_post (b : Buf) (o : Nat) (st : PUIntBody) (ho : o ≤ b.siz
         split at hs
         · cases hst : s.state <;> rw [hst] at hs <;> simp only at hs
           all_goals first
-            | (obtain ⟨n, crl, h1, h2, h3⟩ := lwsStd_done_ok b i _ clEOH id hs
+            | (obtain ⟨n, crl, h1, h2, h3, h5⟩ := lwsStd_done_ok b i _ clEOH id hs
                obtain ⟨rfl, h4⟩ := clEOH_ok _ _ _ _ h3
                exact ⟨by omega, h2, h4⟩)
             | cases hs
@@ -128,12 +128,12 @@ theorem parseUIntVal_post (b : Buf) (o : Nat) (st : PUIntBody) (ho : o ≤ b.siz
               | (split at hs <;> cases hs)
           · cases hs)
       (by intro i s; simp [clMachine]) o st (by rw [hr])
-    rw [hr] at this; exact this
+    rw [hr] at this; exact ⟨by omega, this.2.1, this.2.2, fun _ => this.1⟩
 
 /-- **ParseCLenVal, OK** -/
 theorem parseCLenVal_post (b : Buf) (o : Nat) (st : PUIntBody) (ho : o ≤ b.size)
     {o' : Nat} {st' : PUIntBody} (hr : parseCLenVal b o st = (o', .ok, st')) :
-    o ≤ o' ∧ o' ≤ b.size ∧ st'.state = .fin := by
+    o ≤ o' ∧ o' ≤ b.size ∧ st'.state = .fin ∧ (st.state ≠ .fin → o < o') := by
   unfold parseCLenVal at hr
   rcases hp : parseUIntVal b o st with ⟨o1, e1, s1⟩
   rw [hp] at hr
@@ -145,10 +145,10 @@ theorem parseCLenVal_post (b : Buf) (o : Nat) (st : PUIntBody) (ho : o ≤ b.siz
 /-- **ParseCSeqVal, OK** -/
 theorem parseCSeqVal_post (b : Buf) (o : Nat) (st : PCSeqBody) (ho : o ≤ b.size)
     {o' : Nat} {st' : PCSeqBody} (hr : parseCSeqVal b o st = (o', .ok, st')) :
-    o ≤ o' ∧ o' ≤ b.size ∧ st'.state = .fin := by
+    o ≤ o' ∧ o' ≤ b.size ∧ st'.state = .fin ∧ (st.state ≠ .fin → o < o') := by
   unfold parseCSeqVal at hr
   split at hr
-  · rename_i hf; cases hr; exact ⟨Nat.le_refl _, ho, hf⟩
+  · rename_i hf; cases hr; exact ⟨Nat.le_refl _, ho, hf, fun hn => absurd hf hn⟩
   · have := runLoop_okPost csMachine b (fun s => s.state = .fin)
       (by
         intro i c s o1 e s1 hb hs he
@@ -158,7 +158,7 @@ theorem parseCSeqVal_post (b : Buf) (o : Nat) (st : PCSeqBody) (ho : o ≤ b.siz
         split at hs
         · cases hst : s.state <;> rw [hst] at hs <;> simp only at hs
           all_goals first
-            | (obtain ⟨n, crl, h1, h2, h3⟩ := lwsStd_done_ok b i _ (csEOH b) id hs
+            | (obtain ⟨n, crl, h1, h2, h3, h5⟩ := lwsStd_done_ok b i _ (csEOH b) id hs
                obtain ⟨rfl, h4⟩ := csEOH_ok b _ _ _ _ h3
                exact ⟨by omega, h2, h4⟩)
             | cases hs
@@ -169,7 +169,7 @@ theorem parseCSeqVal_post (b : Buf) (o : Nat) (st : PCSeqBody) (ho : o ≤ b.siz
               | (split at hs <;> cases hs)
           · cases hst : s.state <;> rw [hst] at hs <;> simp only at hs <;> cases hs)
       (by intro i s; simp [csMachine]) o st (by rw [hr])
-    rw [hr] at this; exact this
+    rw [hr] at this; exact ⟨by omega, this.2.1, this.2.2, fun _ => this.1⟩
 
 /-! ### the "empty line" verdict belongs to ParseHdrLine alone -/
 
@@ -423,5 +423,82 @@ theorem paisLoop_ne_empty (b : Buf) (offs : Nat) (c : PPAIs) : (paisLoop b offs 
 theorem parseAllPAIValues_ne_empty (b : Buf) (offs : Nat) (c : PPAIs) :
     (parseAllPAIValues b offs c).2.1 ≠ .empty := by
   unfold parseAllPAIValues; exact paisLoop_ne_empty b offs _
+
+/-- a value list whose current element is not finished: OK means the offset has moved -/
+theorem contactsLoop_ok_gt (b : Buf) (offs : Nat) (c : PContacts) (hok : ctOK b offs c) (ho : offs ≤ b.size)
+    (hnf : c.cur.state ≠ .fin) {o' : Nat} {c' : PContacts} (hr : contactsLoop b offs c = (o', .ok, c')) :
+    offs < o' := by
+  rw [contactsLoop] at hr
+  rcases hp : parseOneContact b offs c.cur with ⟨next, e1, pf⟩
+  rw [hp] at hr
+  cases e1 <;> simp only at hr <;> try (cases hr; done)
+  case ok =>
+    simp only [Prod.mk.injEq] at hr
+    obtain ⟨rfl, _, _⟩ := hr
+    exact ((parseNameAddrPVal_post HdrContact b offs c.cur hp (Or.inl rfl)).2 hnf).1
+  case moreValues =>
+    have hlt := ((parseNameAddrPVal_post HdrContact b offs c.cur hp (Or.inr rfl)).2 hnf)
+    obtain ⟨hf, h1, h2⟩ := naPVal_ok_range HdrContact b offs c.cur ho hp (Or.inr rfl)
+    have hg : offs < next ∧ next ≤ b.size := ⟨hlt.1, h2⟩
+    rw [if_pos hg] at hr
+    have := contactsLoop_post b next _ (ctOK_next pf hok h1 h2) h2 hr
+    omega
+
+theorem parseAllContactValues_ok_gt (b : Buf) (offs : Nat) (c : PContacts) (hok : ctOK b offs c)
+    (ho : offs ≤ b.size) (hnf : c.cur.state ≠ .fin) {o' : Nat} {c' : PContacts}
+    (hr : parseAllContactValues b offs c = (o', .ok, c')) : offs < o' := by
+  unfold parseAllContactValues at hr
+  refine contactsLoop_ok_gt b offs _ (ctOK_entry hok ho) ho ?_ hr
+  split
+  · rename_i hcond
+    simp only [Bool.and_eq_true, decide_eq_true_eq] at hcond
+    unfold PContacts.cur
+    rw [if_neg (by simp only; omega)]
+    intro hh; cases hh
+  · exact hnf
+
+/-- a value list whose current element is not finished: OK means the offset has moved -/
+theorem paisLoop_ok_gt (b : Buf) (offs : Nat) (c : PPAIs) (hok : paOK b offs c) (ho : offs ≤ b.size)
+    (hnf : c.cur.state ≠ .fin) {o' : Nat} {c' : PPAIs} (hr : paisLoop b offs c = (o', .ok, c')) :
+    offs < o' := by
+  rw [paisLoop] at hr
+  rcases hp : parseOnePAI b offs c.cur with ⟨next, e1, pf⟩
+  rw [hp] at hr
+  obtain ⟨e0, h0, he0⟩ := parseOnePAI_inv hp
+  cases e1 <;> simp only at hr <;> try (cases hr; done)
+  case ok =>
+    simp only [Prod.mk.injEq] at hr
+    obtain ⟨rfl, _, _⟩ := hr
+    have he0' : e0 = .ok := by
+      split at he0
+      · cases he0
+      · exact he0.symm
+    subst he0'
+    exact ((parseNameAddrPVal_post HdrPAI b offs c.cur h0 (Or.inl rfl)).2 hnf).1
+  case moreValues =>
+    have he0' : e0 = .moreValues := by
+      split at he0
+      · cases he0
+      · exact he0.symm
+    subst he0'
+    have hlt := ((parseNameAddrPVal_post HdrPAI b offs c.cur h0 (Or.inr rfl)).2 hnf)
+    obtain ⟨hf, h1, h2⟩ := naPVal_ok_range HdrPAI b offs c.cur ho h0 (Or.inr rfl)
+    have hg : offs < next ∧ next ≤ b.size := ⟨hlt.1, h2⟩
+    rw [if_pos hg] at hr
+    have := paisLoop_post b next _ (paOK_next pf hok h1 h2) h2 hr
+    omega
+
+theorem parseAllPAIValues_ok_gt (b : Buf) (offs : Nat) (c : PPAIs) (hok : paOK b offs c)
+    (ho : offs ≤ b.size) (hnf : c.cur.state ≠ .fin) {o' : Nat} {c' : PPAIs}
+    (hr : parseAllPAIValues b offs c = (o', .ok, c')) : offs < o' := by
+  unfold parseAllPAIValues at hr
+  refine paisLoop_ok_gt b offs _ (paOK_entry hok ho) ho ?_ hr
+  split
+  · rename_i hcond
+    simp only [Bool.and_eq_true, decide_eq_true_eq] at hcond
+    unfold PPAIs.cur
+    rw [if_neg (by simp only; omega)]
+    intro hh; cases hh
+  · exact hnf
 
 end Sipsp
